@@ -15,8 +15,8 @@ for d in sorted(glob.glob(os.path.join(os.path.dirname(os.path.dirname(os.path.a
     det = m.get("detected_by") or []
     runs = m.get("runs") or []
     status = m.get("status", "")
-    rows.append((m["id"], title, ", ".join(det) if det else ("—" if not status else ""), status or ("caught" if det else ("not run" if not runs else "MISSED")), runs[-1] if runs else ""))
-print("| seeded change | what it does | caught by | status |")
-print("|---|---|---|---|")
+    rows.append((m["id"], title, ", ".join(det) if det else ("—" if not status else ""), status or ("caught" if det else ("not run" if not runs else "MISSED")), runs[-1] if runs else "", m.get("first_result", "")))
+print("| seeded change | what it does | caught by (quick tier) | status | history |")
+print("|---|---|---|---|---|")
 for r in rows:
-    print("| %s | %s | %s | %s |" % (r[0], r[1].replace("|", "/"), r[2], r[3]))
+    print("| %s | %s | %s | %s | %s |" % (r[0], r[1].replace("|", "/"), r[2], r[3], r[5].replace("|", "/")))
